@@ -107,7 +107,7 @@ def c17_worker(res: Result, i: int, n: int) -> None:
     from kio.records.schema import NewRecordBatch
     from kio.records.writers import write_batch, write_new_batch
 
-    total = 4000 if res.tier == "quick" else 400000
+    total = 12000 if res.tier == "quick" else 1200000
     thorough = res.tier == "thorough"
     cells: set = set()
     distinct: set[bytes] = set()
@@ -339,7 +339,7 @@ def _damage(res: Result, rng, raw: bytes, outcomes: dict, origin: dict, exhausti
 def c18_worker(res: Result, i: int, n: int) -> None:
     from kio.records.readers import read_batch
 
-    total = 160 if res.tier == "quick" else 6000
+    total = 320 if res.tier == "quick" else 16000
     thorough = res.tier == "thorough"
     outcomes: dict[str, int] = {}
     distinct: set[bytes] = set()
